@@ -349,6 +349,18 @@ def run(ctx):
                    f'action {fn.name}: the first raw query must be stored as query_str and the second as if_query_str '
                    f'(got {dest})', file=g.file, line=fn.lineno, witness='CREATE JOB j (select 1) IF (select 2)')
     check_stored_as_rebuilt(ctx, g, embed)
+    # the embedded query is rebuilt from the tokens of the text the LEXER was given: that text must be the caller's (C04's entry rules: parse_sql and any
+    # `tokenize` override of the lexer classes hand the text on unchanged)
+    from . import C04
+    from ..core import Ctx as _Ctx
+    sub = _Ctx('C04', ctx.src, ctx.tier)
+    C04.check_entry_text(sub)
+    C04.check_lexer_entry(sub)
+    ctx.setcount('entry_text_rows', len(sub.constructs))
+    ctx.floor('entry_text_rows', 1000)
+    ctx.ob('C16.source-text', 'entry-text:all', True, '')
+    for f_ in sub.findings:
+        ctx.ob('C16.source-text', f'entry-text:{f_.construct}', False, f_.msg, file=f_.file, line=f_.line, witness=f_.witness)
     # (3) -------------------------------------------------------------------------------------------------------------
     M = rewritten_value_tokens(lex, ctx.src)
     tree = ctx.src.tree(UTILS)
